@@ -21,7 +21,7 @@ import (
 
 func init() {
 	register("stmtseq", kindStmtSeq)
-	register("callers", kindCallers)
+	register("chan_callers", kindChanCallers)
 	register("mapwrites", kindMapWrites)
 }
 
@@ -96,7 +96,7 @@ func pkgFuncs(c *Ctx, dir string, f func(name string, fd *ast.FuncDecl)) error {
 	return nil
 }
 
-func kindCallers(c *Ctx, it Item) (string, error) {
+func kindChanCallers(c *Ctx, it Item) (string, error) {
 	callee := it.Str("callee")
 	set := map[string]bool{}
 	err := pkgFuncs(c, it.Str("dir"), func(name string, fd *ast.FuncDecl) {
